@@ -197,3 +197,123 @@ Proof.
   { apply byte_of_bz. rewrite Ll, Hrest. cbn [length]. rewrite app_length. cbn [length]. lia. }
   rewrite Hrest, Et, Et2, Et3, <- El, <- Elr, <- Els. reflexivity.
 Qed.
+
+(* ---------------------------------------------------------------- the library's (fastecdsa) decoder on strict input *)
+
+(* what der_split = Some says about the bytes *)
+Lemma der_split_inv b rb sb : der_split b = Some (rb, sb) ->
+  exists t l t2 lr t3 ls,
+    b = t :: l :: t2 :: lr :: rb ++ t3 :: ls :: sb /\ bz t = 48 /\ bz l = Z.of_nat (length b) - 2 /\
+    bz t2 = 2 /\ bz t3 = 2 /\ bz lr = Z.of_nat (length rb) /\ bz ls = Z.of_nat (length sb) /\
+    int_ok rb = true /\ int_ok sb = true.
+Proof.
+  intros Hs. rewrite der_split_eq in Hs.
+  destruct b as [|t [|l [|t2 [|lr rest2]]]]; try discriminate. cbv zeta in Hs.
+  destruct (skipn (Z.to_nat (bz lr)) rest2) as [|t3 [|ls rest4]] eqn:Esk; try discriminate.
+  destruct (_ && _) eqn:Econd in Hs; [|discriminate].
+  assert (rb = firstn (Z.to_nat (bz lr)) rest2) by congruence. assert (sb = rest4) by congruence.
+  subst sb. clear Hs.
+  repeat (apply andb_true_iff in Econd; destruct Econd as [Econd ?]).
+  match goal with H : int_ok rest4 = true |- _ => rename H into Is end.
+  match goal with H : int_ok (firstn _ _) = true |- _ => rename H into Ir end.
+  match goal with H : (length rest4 =? _)%nat = true |- _ => apply Nat.eqb_eq in H; rename H into Ls end.
+  match goal with H : (length (firstn _ _) =? _)%nat = true |- _ => apply Nat.eqb_eq in H; rename H into Lr end.
+  match goal with H : (bz t3 =? 2) = true |- _ => apply Z.eqb_eq in H; rename H into T3 end.
+  match goal with H : (bz t2 =? 2) = true |- _ => apply Z.eqb_eq in H; rename H into T2 end.
+  match goal with H : (bz l =? _) = true |- _ => apply Z.eqb_eq in H; rename H into Ll end.
+  apply Z.eqb_eq in Econd. rename Econd into T1.
+  rewrite <- H in Ir, Lr.
+  assert (Hrest : rest2 = rb ++ t3 :: ls :: rest4).
+  { rewrite <- (firstn_skipn (Z.to_nat (bz lr)) rest2), Esk, <- H. reflexivity. }
+  pose proof (bz_range lr) as Hlr. pose proof (bz_range ls) as Hls.
+  exists t, l, t2, lr, t3, ls. rewrite Hrest. repeat split; try assumption; try lia.
+  rewrite <- Hrest. exact Ll.
+Qed.
+
+Lemma asn1_split_app a b : asn1_split (Z.of_nat (length a)) (a ++ b) = Some (a, b).
+Proof.
+  unfold asn1_split. rewrite Nat2Z.id, firstn_app_exact, skipn_app_exact.
+  destruct (_ <? _) eqn:E; [|reflexivity]. apply Z.ltb_lt in E. rewrite app_length in E. lia.
+Qed.
+
+Lemma asn1_length_short lb a b : bz lb = Z.of_nat (length a) -> (length a < 128)%nat ->
+  asn1_length (lb :: a ++ b) = Some (a, b).
+Proof.
+  intros Hl Hs. unfold asn1_length. rewrite Hl.
+  destruct (_ <? 128) eqn:E; [apply asn1_split_app|]. apply Z.ltb_ge in E. lia.
+Qed.
+
+Lemma asn1_int_eq data : asn1_int data =
+  match data with
+  | t :: rest => if (length data <? 3)%nat || negb (bz t =? 2) then None else asn1_length rest
+  | [] => None
+  end.
+Proof. reflexivity. Qed.
+
+Lemma asn1_int_short t lb a b : bz t = 2 -> bz lb = Z.of_nat (length a) -> (1 <= length a < 128)%nat ->
+  asn1_int (t :: lb :: a ++ b) = Some (a, b).
+Proof.
+  intros Ht Hl Hs. rewrite asn1_int_eq. rewrite Ht. change (negb (2 =? 2)) with false.
+  destruct (_ <? 3)%nat eqn:E.
+  - apply Nat.ltb_lt in E. cbn [length] in E. rewrite app_length in E. lia.
+  - cbn [orb]. apply asn1_length_short; [exact Hl|lia].
+Qed.
+
+Lemma int_ok_nonempty b : int_ok b = true -> (1 <= length b)%nat.
+Proof. destruct b; [discriminate|]. cbn [length]. lia. Qed.
+
+Lemma lib_der_dec_eq sig : lib_der_dec sig =
+  match sig with
+  | t :: rest =>
+      if bz t =? 48 then
+        match asn1_length rest with
+        | Some (sq, []) =>
+            match asn1_int sq with
+            | Some (rb, sdata) =>
+                match asn1_int sdata with
+                | Some (sb, _) =>
+                    if lib_int_ok rb && lib_int_ok sb then Some (of_be rb, of_be sb) else None
+                | None => None
+                end
+            | None => None
+            end
+        | _ => None
+        end
+      else None
+  | [] => None
+  end.
+Proof. reflexivity. Qed.
+
+(* on a BIP66-shaped body the library's decoder takes exactly the strict decoder's path *)
+Lemma lib_der_dec_of_split b rb sb : der_split b = Some (rb, sb) -> (length b <= 129)%nat ->
+  lib_der_dec b = if lib_int_ok rb && lib_int_ok sb then Some (of_be rb, of_be sb) else None.
+Proof.
+  intros Hs Hlen. destruct (der_split_inv b rb sb Hs) as (t & l & t2 & lr & t3 & ls & Hb & T & L & T2 & T3 & LR & LS & Ir & Is).
+  pose proof (int_ok_nonempty rb Ir) as Nr. pose proof (int_ok_nonempty sb Is) as Ns.
+  assert (Hlb : length b = (4 + length rb + (2 + length sb))%nat).
+  { rewrite Hb. cbn [length]. rewrite app_length. cbn [length]. lia. }
+  rewrite lib_der_dec_eq. rewrite Hb. rewrite T. change (48 =? 48) with true. cbv iota.
+  replace (t2 :: lr :: rb ++ t3 :: ls :: sb) with ((t2 :: lr :: rb ++ t3 :: ls :: sb) ++ []) by apply app_nil_r.
+  rewrite asn1_length_short.
+  - rewrite asn1_int_short by (try assumption; lia).
+    replace (t3 :: ls :: sb) with (t3 :: ls :: sb ++ []) by (rewrite app_nil_r; reflexivity).
+    rewrite asn1_int_short by (try assumption; lia). reflexivity.
+  - rewrite L, Hlb. cbn [length]. rewrite app_length. cbn [length]. lia.
+  - cbn [length]. rewrite app_length. cbn [length]. lia.
+Qed.
+
+(* the only INTEGER body BIP66 admits and the library's decoder does not is the single byte 00 (value 0) *)
+Lemma lib_int_ok_or_zero b : int_ok b = true -> lib_int_ok b = true \/ of_be b = 0.
+Proof.
+  intros Hok. destruct b as [|h tl]; [discriminate|]. cbn [int_ok] in Hok. cbn [lib_int_ok].
+  apply andb_true_iff in Hok. destruct Hok as [Hh Hpad]. rewrite Hh. cbn [andb].
+  destruct tl as [|h2 t2].
+  - destruct (bz h =? 0) eqn:E0; [right|left; reflexivity].
+    apply Z.eqb_eq in E0. rewrite of_be_cons, E0. cbn. reflexivity.
+  - left. exact Hpad.
+Qed.
+
+Lemma length_removelast (A : Type) (l : list A) : l <> [] -> length l = S (length (removelast l)).
+Proof.
+  intros Hn. destruct (exists_last Hn) as (l' & a & ->). rewrite removelast_snoc, app_length. cbn [length]. lia.
+Qed.
